@@ -14,7 +14,7 @@ Thread part: 2 real threads (bodies: list(q.finditer(d)), env.find(text, d),
 env.compile(text) + find) on shared query / environment objects under a cooperative
 scheduler (mc/sched/threads.py: sys.settrace line events in package code are the
 scheduling points, one baton).  Iterative preemption bounding: all schedules with 0
-and 1 preemptions (quick), 2 (thorough, capped).  Oracle: each thread observes its
+and 1 preemptions (quick), 2 (thorough, capped); thorough adds two 3-thread harnesses at bound 1.  Oracle: each thread observes its
 sequential result, and the same bodies run sequentially afterwards still do (the shared
 environment / query objects are left intact).
 """
@@ -172,12 +172,20 @@ T_HARNESS = [
 ]
 
 
+T3 = {12: (0, "iter"), 13: (4, "find")}  # thorough only: harness index -> (query, kind) of a third thread
+T_HARNESS_3 = [
+    ("three threads: finditer x2 shared query + find", 0, 0, "iter", "iter"),
+    ("three threads: match two patterns + third pattern", 4, 10, "find", "find"),
+]
+
+
 def thread_bodies(h):
     """-> (make, seq): make() builds a FRESH environment / shared compiled queries and returns the
     two thread bodies (so every explored schedule starts from the initial state); make.post() runs
     the same two bodies sequentially on the objects of the latest build.  seq = the sequential
     observations on a fresh build."""
-    _, qa, qb, ka, kb = T_HARNESS[h]
+    _, qa, qb, ka, kb = (T_HARNESS + T_HARNESS_3)[h]
+    third = T3.get(h)
 
     def build():
         env = impl.jp.JSONPathEnvironment()
@@ -202,7 +210,10 @@ def thread_bodies(h):
                 return f
             raise KeyError(kind)
 
-        return [body(qa, ka), body(qb, kb)]
+        bodies = [body(qa, ka), body(qb, kb)]
+        if third is not None:
+            bodies.append(body(11 if h == 13 else third[0], third[1]))
+        return bodies
 
     def make():
         bodies = build()
@@ -284,6 +295,8 @@ def shards(tier):
     out += [{"part": "iters", "q": qi, "config": c, "cap": {"2": 5, "3": 3} if tier == "quick" else {"2": 7, "3": 4}}
            for qi in range(N_ITER_QUERIES) for c in CONFIGS]
     out += [{"part": "threads", "h": h, "tier": tier} for h in range(len(T_HARNESS))]
+    if tier == "thorough":
+        out += [{"part": "threads", "h": len(T_HARNESS) + k, "tier": tier, "bound": 1} for k in range(len(T_HARNESS_3))]
     return out
 
 
@@ -306,10 +319,10 @@ def check_case(case):
         exe = ts.Execution(make(), pkg_dir(), case["first"], pre).run()
     except ts.Hang as h:
         return violation("thread-hang", case, "terminates", str(h), "interference")
-    obs = [exe.errors[i] or exe.results[i] for i in range(2)]
+    obs = [exe.errors[i] or exe.results[i] for i in range(len(seq))]
     if obs != seq:
         return violation("thread-interference", case, "sequential observations",
-                         {"thread_results_differ": [i for i in range(2) if obs[i] != seq[i]],
+                         {"thread_results_differ": [i for i in range(len(seq)) if obs[i] != seq[i]],
                           "errors": exe.errors}, "interference")
     try:
         post = make.post()
@@ -386,9 +399,9 @@ def run_shard(desc):
         make, seq = thread_bodies(h)
 
         def check(exe):
-            obs = [exe.errors[i] or exe.results[i] for i in range(2)]
+            obs = [exe.errors[i] or exe.results[i] for i in range(len(seq))]
             if obs != seq:
-                return {"thread_results_differ": [i for i in range(2) if obs[i] != seq[i]], "errors": exe.errors}
+                return {"thread_results_differ": [i for i in range(len(seq)) if obs[i] != seq[i]], "errors": exe.errors}
             # the shared objects must also be left intact: the same bodies, run sequentially
             # after the concurrent execution, still give the sequential observations
             try:
@@ -399,7 +412,7 @@ def run_shard(desc):
                 return {"after_the_concurrent_run_sequential_results_differ": True}
             return None
 
-        found, stats = ts.explore(make, pkg_dir(), 1 if tier == "quick" else 2, check,
+        found, stats = ts.explore(make, pkg_dir(), desc.get("bound", 1 if tier == "quick" else 2), check,
                                   max_executions=None if tier == "quick" else 6000)
         sh.states += stats["points"]
         sh.transitions += stats["points"]
@@ -415,6 +428,6 @@ def run_shard(desc):
                                    {"part": "threads", "h": h, "first": schedule["first"],
                                     "preemptions": schedule["preemptions"]},
                                    "sequential observations", bad, "interference"))
-        sh.sample({"harness": T_HARNESS[h][0], "executions": stats["executions"],
+        sh.sample({"harness": (T_HARNESS + T_HARNESS_3)[h][0], "executions": stats["executions"],
                    "scheduling_points_total": stats["points"]}, limit=1)
     return sh
